@@ -28,7 +28,7 @@ func init() {
 			{Name: "concurrent-api", Fn: scnC18Concurrent, Weight: 3, Group: c18Group},
 			{Name: "wait-for-ready", Fn: scnC18Wait, Weight: 1},
 		},
-		Rule: "concurrent-api: 2-3 simulated tasks issue AddReadiness / OnReady / IsReady (the poll behind WaitForReady) / status requests (ReadyzHandler into a response recorder) over 1-3 component names incl. re-registration, <=12 operations, " +
+		Rule: "concurrent-api: 2-3 simulated tasks issue AddReadiness / OnReady / IsReady (the poll behind WaitForReady) / status requests (GET, every fourth one HEAD, served by ReadyzHandler into a response recorder; a HEAD probe is judged by its status code) over 1-3 component names incl. re-registration, <=12 operations, " +
 			"interleaved at lock granularity (baseline, single-preemption sweep, PCT, random); every response must be internally consistent and the recorded invoke/return history must be linearizable " +
 			"against a map model (porcupine); wait-for-ready: registrations and ready-marks separated by fake-clock advances, one to three waiters each with its own context (started and cancelled at taped steps); WaitForReady may complete only at an instant at which the model is ready, " +
 			"yields its own context's error (and only then an error) when cancelled first, and does complete once everything has been ready for three polling intervals; " +
@@ -39,13 +39,16 @@ func init() {
 }
 
 type c18Op struct {
-	Kind string // add | ready | get | isready
+	Kind string // add | ready | get | head | isready
 	Name string
 }
 
 func (o c18Op) String() string {
 	if o.Kind == "get" {
 		return "GET /readyz"
+	}
+	if o.Kind == "head" {
+		return "HEAD /readyz"
 	}
 	if o.Kind == "isready" {
 		return "IsReady()"
@@ -151,6 +154,10 @@ var c18Model = porcupine.Model{
 		default:
 			want := expectedStatus(m)
 			got := output.(c18Out)
+			if op.Kind == "head" {
+				// a HEAD probe is judged by its status code only (a server drops the body)
+				return want.Code == got.Code, state
+			}
 			if want.Code != got.Code || len(want.Body) != len(got.Body) {
 				return false, state
 			}
@@ -167,9 +174,9 @@ var c18Model = porcupine.Model{
 	},
 }
 
-func doStatus(h *health.Health) c18Out {
+func doStatus(h *health.Health, method string) c18Out {
 	rr := httptest.NewRecorder()
-	h.ReadyzHandler().ServeHTTP(rr, httptest.NewRequest(http.MethodGet, "/readyz", nil))
+	h.ReadyzHandler().ServeHTTP(rr, httptest.NewRequest(method, "/readyz", nil))
 	out := c18Out{Code: rr.Code, Body: map[string]string{}}
 	json.Unmarshal(rr.Body.Bytes(), &out.Body)
 	return out
@@ -222,7 +229,12 @@ func scnC18Concurrent(rc *RunCtx) {
 					ops = append(ops, c18Op{"ready", cand[t.Choose(len(cand), "name")]})
 				}
 			default:
-				ops = append(ops, c18Op{"get", ""})
+				// every fourth status request is a HEAD probe, as load balancers send
+				if total%4 == 3 {
+					ops = append(ops, c18Op{"head", ""})
+				} else {
+					ops = append(ops, c18Op{"get", ""})
+				}
 			}
 		}
 		prog = append(prog, ops)
@@ -262,8 +274,10 @@ func scnC18Concurrent(rc *RunCtx) {
 			if h.IsReady() {
 				out.Code = 1
 			}
+		case "head":
+			out = doStatus(h, http.MethodHead)
 		default:
-			out = doStatus(h)
+			out = doStatus(h, http.MethodGet)
 		}
 		lg.add(c18Rec{client, op, out, call, lg.stamp()})
 	}
@@ -297,17 +311,17 @@ func scnC18Concurrent(rc *RunCtx) {
 	var ops []porcupine.Operation
 	for _, r := range lg.recs {
 		ops = append(ops, porcupine.Operation{ClientId: r.Client % 50, Input: r.Op, Call: r.Call, Output: r.Out, Return: r.Ret})
-		if r.Op.Kind != "get" {
+		if r.Op.Kind != "get" && r.Op.Kind != "head" {
 			continue
 		}
 		for _, o := range lg.recs {
-			if o.Client != r.Client && o.Op.Kind != "get" && o.Op.Kind != "isready" && o.Call < r.Ret && r.Call < o.Ret {
+			if o.Client != r.Client && (o.Op.Kind == "add" || o.Op.Kind == "ready") && o.Call < r.Ret && r.Call < o.Ret {
 				overlap = true
 			}
 		}
 		// internal consistency of one response (when a component is itself called "overall" its
 		// own status and the verdict share one key: then only the model comparison applies)
-		if names[len(names)-1] == health.OverallReady {
+		if names[len(names)-1] == health.OverallReady || r.Op.Kind == "head" {
 			continue
 		}
 		allOK := true
